@@ -286,6 +286,7 @@ func dispositionTable(prog *Program) (map[string]bool, *ssa.Function, string) {
 		ps := NewPathSim(prog)
 		c := c
 		ps.Seed = func(st *pstate) { st.eqc[p.Key()] = constKey(c) }
+		ps.Inline = func(g *ssa.Function) bool { return prog.InModule(g) && g != fn }
 		sums := ps.Run(fn)
 		if len(sums) != 1 || len(sums[0].Results) != 1 {
 			return nil, fn, fmt.Sprintf("%d paths for operator %s", len(sums), c.Name())
